@@ -1448,6 +1448,16 @@ fn handle_message(
         }
         Some("initialized") => {
             // This is a notification, no response needed
+            // A notification that arrives with an id is a malformed
+            // request, but the client is still waiting on a response.
+            if let Some(id) = parsed.id {
+                push_error(
+                    &mut outgoing,
+                    id,
+                    ErrorCodes::InvalidRequest,
+                    "initialized is a notification and must not have an id.".to_owned(),
+                );
+            }
         }
         Some("textDocument/completion") => {
             if let Some(id) = parsed.id {
@@ -1562,14 +1572,44 @@ fn handle_message(
         Some("textDocument/didOpen") => {
             let params = message.get("params").unwrap_or(&serde_json::Value::Null);
             outgoing.extend(handle_did_open(params, documents));
+            // A notification that arrives with an id is a malformed
+            // request, but the client is still waiting on a response.
+            if let Some(id) = parsed.id {
+                push_error(
+                    &mut outgoing,
+                    id,
+                    ErrorCodes::InvalidRequest,
+                    "textDocument/didOpen is a notification and must not have an id.".to_owned(),
+                );
+            }
         }
         Some("textDocument/didChange") => {
             let params = message.get("params").unwrap_or(&serde_json::Value::Null);
             outgoing.extend(handle_did_change(params, documents));
+            // A notification that arrives with an id is a malformed
+            // request, but the client is still waiting on a response.
+            if let Some(id) = parsed.id {
+                push_error(
+                    &mut outgoing,
+                    id,
+                    ErrorCodes::InvalidRequest,
+                    "textDocument/didChange is a notification and must not have an id.".to_owned(),
+                );
+            }
         }
         Some("textDocument/didClose") => {
             let params = message.get("params").unwrap_or(&serde_json::Value::Null);
             outgoing.extend(handle_did_close(params, documents));
+            // A notification that arrives with an id is a malformed
+            // request, but the client is still waiting on a response.
+            if let Some(id) = parsed.id {
+                push_error(
+                    &mut outgoing,
+                    id,
+                    ErrorCodes::InvalidRequest,
+                    "textDocument/didClose is a notification and must not have an id.".to_owned(),
+                );
+            }
         }
         Some("shutdown") => {
             if let Some(id) = parsed.id {
@@ -1579,6 +1619,16 @@ fn handle_message(
         }
         Some("exit") => {
             // Exit notification
+            // A notification that arrives with an id is a malformed
+            // request, but the client is still waiting on a response.
+            if let Some(id) = parsed.id {
+                push_error(
+                    &mut outgoing,
+                    id,
+                    ErrorCodes::InvalidRequest,
+                    "exit is a notification and must not have an id.".to_owned(),
+                );
+            }
             action = Action::Exit;
         }
         Some(method) => {
